@@ -155,10 +155,94 @@ def run_mi(case: dict, wd: Path) -> dict:
     return {"final": got, "ops": ops, "sigs": sorted(set(sigs)), "nmsg": sum(1 for o in ops if o[0] == "d")}
 
 
+def run_flag(case: dict, wd: Path) -> dict:
+    """cancel-through-the-store member (C17): ONE generated workflow; before step `at` the operator cancels it -
+    via = "ui": through the monitor's own action (monitor/display/interaction.handle_workflow_action with the curses calls
+    stubbed), the monitor having been given the queue;  via = "store": WorkflowStore.cancel() called directly (the flag only).
+    Oracle = C17's clauses: no task execution starts after the request, every stage unfinished at that moment ends CANCELED, the
+    workflow is final - CANCELED unless it had in effect finished - once the queue is drained."""
+    import re
+    import types
+
+    from harness.engine import Engine, Spec
+
+    core.ensure_repo_on_path()
+    import logging
+
+    logging.disable(logging.CRITICAL)
+    rng = random.Random(case["seed"])
+    spec = Spec.from_json(case["spec"])
+    e = Engine(spec, wd)
+    try:
+        def parse():
+            parts = e.state_line().split(";")
+            return parts[0][2:].split(",")[0], [q.split("=")[1].split(",")[0] for q in parts if re.match(r"S\d+=", q)]
+
+        e.start()
+        ops: list[str] = []
+        sent = False
+        at = case["at"]
+        pre = None
+        ledger_at = None
+        for step in range(800):
+            if not sent and step >= at:
+                pre = parse()
+                if case["via"] == "ui":
+                    from stabilize.monitor.data import MonitorDataFetcher
+                    from stabilize.monitor.display import interaction
+
+                    saved = (interaction.get_input, interaction.show_message)
+                    interaction.get_input = lambda _scr, _prompt: "operator said so"
+                    interaction.show_message = lambda *_a, **_k: None
+                    try:
+                        interaction.handle_workflow_action(None, "cancel", {"type": "workflow", "data": types.SimpleNamespace(id=e.wf_id)},
+                                                           MonitorDataFetcher(e.store, e.queue))
+                    finally:
+                        interaction.get_input, interaction.show_message = saved
+                    ops.append("monitor:cancel")
+                else:
+                    e.store.cancel(e.wf_id, "operator", "flag only")
+                    ops.append("store.cancel")
+                sent = True
+                ledger_at = len(e.world.ledger)
+            p = e.pending()
+            dl = e.delayed_ids()
+            now = [x for x in p if x[0] not in dl]
+            p = now or [x for x in p if x[1].startswith("RT.")] or p
+            if not p:
+                if not sent:
+                    at = step
+                    continue
+                break
+            x = p[0] if case["mode"] == "fifo" else rng.choice(p)
+            r = e.deliver(x[0])
+            ops.append(f"d{x[0]}[{x[1]}]" + ("" if r == "ok" else ":" + r))
+        w, st = parse()
+        pfx = "ui-cancel" if case["via"] == "ui" else "flag-only-cancel"
+        sigs = []
+        if e.pending():
+            sigs.append(("no-drain", "the queue did not drain within the step budget"))
+        if w not in FINAL:
+            sigs.append((f"{pfx}:not-final:W-{w}", f"cancel requested ({case['via']}), queue drained, workflow {w}, stages {st}"))
+        if pre is not None and pre[0] not in FINAL:
+            for i, (a, b) in enumerate(zip(pre[1], st)):
+                if a == "NOT_STARTED" and b not in ("CANCELED", "NOT_STARTED") or a in ("RUNNING", "SUSPENDED") and b not in ("CANCELED",) + tuple(FINAL - {"SKIPPED"}):
+                    sigs.append((f"{pfx}:unfinished-stage-ends:{a}>{b}", f"stage {i} was {a} at the request and ends {b}"))
+                if a == "NOT_STARTED" and b == "NOT_STARTED" and w in FINAL:
+                    sigs.append((f"{pfx}:unfinished-stage-ends:NOT_STARTED>NOT_STARTED", f"stage {i} was never started and is left NOT_STARTED in the {w} workflow"))
+        if ledger_at is not None and any(True for _ in e.world.ledger[ledger_at:]):
+            sigs.append((f"{pfx}:task-executed-after-request", f"{len(e.world.ledger) - ledger_at} task execution(s) began after the request"))
+        return {"final": [w] + st, "ops": ops, "sigs": sorted(set(sigs)), "nmsg": sum(1 for o in ops if o[0] == "d")}
+    finally:
+        e.close()
+
+
 def run_case(case: dict, wd: Path) -> dict:
     """one scenario, fully determined by `case` (all random choices come from random.Random(case['seed']))"""
     if case.get("kind") == "region":
         return run_region(case, wd)
+    if case.get("kind") == "flag":
+        return run_flag(case, wd)
     if case.get("kind") == "mi":
         return run_mi(case, wd)
     from harness.engine import Engine, Spec, StageSpec
@@ -273,6 +357,12 @@ def gen_case(rng: random.Random, tag: str, kinds: tuple = ("conc", "region")) ->
         if rng.random() < 0.7:
             stages.append(StageSpec(reqs=[0], tasks=[["S"]]))
         return {"kind": "mi", "seed": tag, "spec": Spec(stages).to_json(), "at": rng.choice([3, 4, 4, 5]), "kill": rng.choice([1, 1, 2, 3, 4])}
+    if "flag" in kinds and (kinds == ("flag",) or rng.random() < 0.3):
+        from harness import engine_suites as es
+
+        spec = es.gen_spec(rng, rng.choice(["w1", "w1", "w0"]))
+        return {"kind": "flag", "seed": tag, "spec": spec.to_json(), "at": rng.randint(0, 6 + 4 * len(spec.stages)),
+                "mode": rng.choice(["fifo", "rand"]), "via": rng.choice(["ui", "ui", "store"])}
     if "region" in kinds and ("conc" not in kinds or rng.random() < 0.35):
         from harness import engine_suites as es
 
@@ -327,6 +417,9 @@ def run_for(ctx, prop: str, kinds: tuple = ("conc", "region")) -> None:
             ctx.tag("model-free:add-multi-instance", f"conc:mi:kill-after-commit:{c['kill']}", f"conc:mi:pushed-after:{c['at']}",
                     "conc:mi:instance-present" if any("_instance_" in x for x in r["final"]) else "conc:mi:no-instance(parent-complete-or-refused)")
             fam["mi_scenarios"] = fam.get("mi_scenarios", 0) + 1
+        elif c.get("kind") == "flag":
+            ctx.tag("model-free:cancel-through-store-or-monitor", f"conc:flag:via:{c['via']}", f"conc:flag:mode:{c['mode']}", "conc:flag:wf:" + r["final"][0])
+            fam["flag_scenarios"] = fam.get("flag_scenarios", 0) + 1
         elif c.get("kind") == "region":
             ctx.tag("model-free:cancel-region", f"conc:region:mode:{c['mode']}", "conc:region:wf:" + r["final"][0],
                     f"conc:region:stages-in-region:{min(len(c['region']), 3)}")
